@@ -264,10 +264,10 @@ func VerifC12VoteSignBytes() {
 }
 
 // VerifC12VoteSelection: 1..3 commit signatures with symbolic BlockIDFlag (commit / nil / absent), symbolic
-// timestamps (first one with zero fields), arbitrary order of the recovered addresses, a recovery failure planned
+// timestamps (first one with zero fields; every encodable instant when free_first_time=1), arbitrary order of the recovered addresses, a recovery failure planned
 // at any call: only commit votes are recovered and returned, sorted by recovered address, R/S/V/timestamp carried,
 // errors propagate, "no valid precommit" iff there is none.
 func VerifC12VoteSelection() {
 	n := 1 + vs.Pick("signatures", vs.Param("max_signatures"))
-	c12RunVotes(c12VoteCfg{nSigs: n, planError: true})
+	c12RunVotes(c12VoteCfg{nSigs: n, planError: true, freeFirstTime: vs.Param("free_first_time") == 1})
 }
